@@ -59,6 +59,11 @@ CLAIMED = {
     note="Standard-library texts (strconv.Quote, time parse/format, fmt %s, json re-marshal, ToUpper, filepath.Rel) are oracles shipped per case as finite tables computed independently of ConsoleWriter; encoding/json's decoding of the event (last duplicate wins) is an oracle. Readings: byte 0x7f is quoted by the code (accepted either way by the monitors); only the final newline is asserted (messages/keys containing a newline are written verbatim by design). Trusted: Coq kernel + vm_compute, the model, the Go harness.",
     technique="Coq proof (permutation/sortedness reasoning for all iteration orders) + exact-byte correspondence on generated events x options",
     design="5 C16"),
+ "C06": dict(
+    text="Partial. Theorems in Coq over an ownership LTS of G threads emitting events through one shared pool (Get may return any pooled object or a fresh one; one step per pool/writer interaction), for ALL schedules and pool policies: every pooled buffer has at most one owner and is not in the pool while owned (C06_single_owner); whatever the interleaving and whatever stale bytes pooled buffers hold, the writer receives from each thread exactly that thread's events, one Write each, in program order, and the bytes seen on entry are the bytes still there on return (C06_schedule_independent); SyncWriter never admits two threads (C06_syncwriter_exclusive); the order 'one WriteLevel, then putEvent' is re-read from the current source of Event.write on every run. Tie: generated programs run alone (reference bytes, predicted by the Coq Exec model) and then from 2/4/16 goroutines through loggers derived from shared parents into a writer that checksums its argument on entry and return, delays and blocks; multiset of writes must equal the references; SyncWriter and global-logger runs; all under the Go race detector.",
+    note="Partial because data-race freedom under the Go memory model and the real sync.Pool are not modelled: the LTS assumes a thread only touches the buffer it owns; that assumption is what the race detector and the checksumming writer observe on the schedules the runtime happens to pick (not all schedules). Trusted: Coq kernel + vm_compute, the ownership model, go2coq statement extraction for Event.write, Go race detector, harness.",
+    technique="Coq proof (ownership invariant over all schedules of an LTS) + race-detector stress with checksumming writer against model-predicted bytes",
+    design="5 C06"),
 }
 
 NOT_YET = {}
